@@ -38,6 +38,7 @@ func (g *customGen[V]) value(t *T) V {
 }
 
 func (g *customGen[V]) maybeValue(t *T) (V, bool) {
+	parent := t
 	t = newT(t.tb, t.s, flags.debug, nil)
 	defer t.cleanup()
 
@@ -46,6 +47,11 @@ func (g *customGen[V]) maybeValue(t *T) (V, bool) {
 		if r := abnormalEnd(recover(), finished); r != nil {
 			if _, ok := r.(invalidData); !ok {
 				t.cleanupAfterFailure()
+				if msg, ok := r.(stopTest); ok {
+					// like a failure signalled on the T of the property itself,
+					// this one is on record even if the panic is recovered on its way up
+					parent.fail(false, string(msg))
+				}
 				panic(r)
 			}
 			t.cleanup()
